@@ -46,7 +46,7 @@ fn network_circuit(l: usize, merger: bool) -> Result<(garble_lang::circuit::Circ
     })
 }
 
-fn check_network(l: usize, merger: bool, cnt: &AtomicU64, coll: &Collector) {
+fn check_network(l: usize, merger: bool, chunk: usize, n_chunks: usize, cnt: &AtomicU64, coll: &Collector) {
     let site = format!("network/{}/L{}", if merger { "merger" } else { "sorter" }, l);
     let (circuit, idx_bits) = match network_circuit(l, merger) {
         Ok(x) => x,
@@ -71,7 +71,12 @@ fn check_network(l: usize, merger: bool, cnt: &AtomicU64, coll: &Collector) {
         v.dedup();
         v
     } else {
-        (0..(1u32 << l)).collect()
+        // this job's slice of the 2^l key vectors
+        let total = 1u64 << l;
+        let per = total.div_ceil(n_chunks as u64);
+        let lo = (chunk as u64 * per).min(total);
+        let hi = ((chunk as u64 + 1) * per).min(total);
+        (lo as u32..hi as u32).collect()
     };
     for bits in inputs {
         cnt.fetch_add(1, Ordering::Relaxed);
@@ -142,9 +147,9 @@ fn key_ty(k: KeyTy) -> Ty {
 
 fn key_domain(k: KeyTy) -> Vec<Val> {
     match k {
-        KeyTy::U8 => [0u8, 1, 2, 3, 5, 255].iter().map(|v| Val::u8(*v)).collect(),
-        KeyTy::U16 => [0u16, 1, 255, 256, 257, 65535].iter().map(|v| Val::Int(*v as i128, IntTy::U16)).collect(),
-        KeyTy::Pair => [(0u8, 0u8), (0, 1), (0, 255), (1, 0), (1, 1), (255, 0)].iter().map(|(a, b)| Val::Arr(vec![Val::u8(*a), Val::u8(*b)])).collect(),
+        KeyTy::U8 => [0u8, 1, 2, 3, 5, 128, 254, 255].iter().map(|v| Val::u8(*v)).collect(),
+        KeyTy::U16 => [0u16, 1, 255, 256, 257, 32768, 65534, 65535].iter().map(|v| Val::Int(*v as i128, IntTy::U16)).collect(),
+        KeyTy::Pair => [(0u8, 0u8), (0, 1), (0, 255), (1, 0), (1, 1), (255, 0), (255, 254), (255, 255)].iter().map(|(a, b)| Val::Arr(vec![Val::u8(*a), Val::u8(*b)])).collect(),
     }
 }
 
@@ -222,7 +227,15 @@ fn join_loop_job(n: usize, m: usize, kt: KeyTy, pl: Payload, dom_size: usize) ->
         body,
     );
     // inputs: all pairs of strictly ascending key arrays; payloads distinct markers; plus one zero divisor per position of b
-    let dom: Vec<Val> = key_domain(kt).into_iter().take(dom_size).collect();
+    let full = key_domain(kt);
+    let dom: Vec<Val> = if dom_size >= full.len() {
+        full
+    } else {
+        // keep the smallest values and the maximum
+        let mut d: Vec<Val> = full.iter().take(dom_size - 1).cloned().collect();
+        d.push(full[full.len() - 1].clone());
+        d
+    };
     let mut inputs = vec![];
     for sa in subsets(dom.len(), n) {
         for sb in subsets(dom.len(), m) {
@@ -433,18 +446,21 @@ pub fn run(tier: Tier) -> i32 {
     let coll = Collector::new();
     // A
     let net_inputs = AtomicU64::new(0);
-    let max_l = tier.pick(14usize, 18usize);
-    let mut net_jobs: Vec<(usize, bool)> = vec![];
+    let max_l = tier.pick(16usize, 22usize);
+    let mut net_jobs: Vec<(usize, bool, usize, usize)> = vec![];
     for l in 1..=max_l {
-        net_jobs.push((l, false));
+        let n_chunks = if l <= 12 { 1 } else { 1usize << (l - 12) };
+        for c in 0..n_chunks {
+            net_jobs.push((l, false, c, n_chunks));
+        }
     }
-    for l in [1usize, 2, 4, 8, 16] {
-        net_jobs.push((l, true));
+    for l in [1usize, 2, 4, 8, 16, 32] {
+        net_jobs.push((l, true, 0, 1));
     }
-    let done_a = par_range(net_jobs.len(), &budget, |i| check_network(net_jobs[i].0, net_jobs[i].1, &net_inputs, &coll));
+    let done_a = par_range(net_jobs.len(), &budget, |i| check_network(net_jobs[i].0, net_jobs[i].1, net_jobs[i].2, net_jobs[i].3, &net_inputs, &coll));
     // B
-    let max_nm = tier.pick(4usize, 6usize);
-    let dom = tier.pick(6usize, 6usize);
+    let max_nm = tier.pick(5usize, 7usize);
+    let dom = tier.pick(6usize, 8usize);
     let mut jobs: Vec<Job> = vec![];
     for n in 1..=max_nm {
         for m in 1..=max_nm {
@@ -474,7 +490,7 @@ pub fn run(tier: Tier) -> i32 {
     }
     // C
     let bc = BuiltinCnt { programs: AtomicU64::new(0), evals: AtomicU64::new(0), with_matches: AtomicU64::new(0), with_dups: AtomicU64::new(0) };
-    let max_b = tier.pick(4usize, 6usize);
+    let max_b = tier.pick(5usize, 7usize);
     let mut bjobs = vec![];
     for n in 1..=max_b {
         for m in 1..=max_b {
